@@ -512,7 +512,11 @@ func c19CrashExec(j c19Job) (res c19Res) {
 		}
 	}
 	if len(w.V) > 0 {
-		return c19Res{Err: "prep raised " + w.V[0].Key + ": " + w.V[0].What}
+		for _, v := range w.V {
+			if v.Property == "HARNESS" {
+				return c19Res{Err: "prep: " + v.What}
+			}
+		}
 	}
 	var wi int
 	fmt.Sscanf(strings.Split(sc.Op, "|")[1], "%d", &wi)
